@@ -414,7 +414,7 @@ fn pre(ctx: &Ctx) {
 pub fn property() -> Property {
     Property {
         id: "C02",
-        rule: "Entries built by the harness's own SqPack encoder: kind standard (0..N blocks, optional gaps between blocks) / texture (raw header of 0..200 bytes, 1..13 mips x 1..4 blocks, i16 block-size table) / model (stack, runtime, 1..3 LODs x vertex/index sections of 0..4 blocks, five 11-slot tables, u16 block-size table); block sizes 1..16000 biased to alignment boundaries; each block independently raw or deflated by miniz_oxide (hand-written stored, stored, fixed Huffman, dynamic level 6/9); five content styles; entry placed at a 128-aligned offset after unrelated bytes in dat0..dat7; read through SqPackData::read_from_offset, 1 in 4 through GameData::extract via a generated index/index2. Oracle: packed bytes (standard: concatenation; texture: header then mips in order; model: decoded 0x44 header must describe stack/runtime/vertex/index sections byte for byte). Non-trivial: >= 2 blocks mixing raw and deflated, or >= 2 mips, or >= 2 LODs; distinct by hash of the encoded entry.",
+        rule: "[rounds 8-9: deflate shapes 'several stored pieces' and 'several flushed blocks'; one entry in 200 with a block table of 510..8 200 (standard), 2 040..5 040 (texture mip) or 2 040..4 100 (model section) tiny blocks] Entries built by the harness's own SqPack encoder: kind standard (0..N blocks, optional gaps between blocks) / texture (raw header of 0..200 bytes, 1..13 mips x 1..4 blocks, i16 block-size table) / model (stack, runtime, 1..3 LODs x vertex/index sections of 0..4 blocks, five 11-slot tables, u16 block-size table); block sizes 1..16000 biased to alignment boundaries; each block independently raw or deflated by miniz_oxide (hand-written stored, stored, fixed Huffman, dynamic level 6/9); five content styles; entry placed at a 128-aligned offset after unrelated bytes in dat0..dat7; read through SqPackData::read_from_offset, 1 in 4 through GameData::extract via a generated index/index2. Oracle: packed bytes (standard: concatenation; texture: header then mips in order; model: decoded 0x44 header must describe stack/runtime/vertex/index sections byte for byte). Non-trivial: >= 2 blocks mixing raw and deflated, or >= 2 mips, or >= 2 LODs; distinct by hash of the encoded entry.",
         assumptions: &["miniz_oxide produces valid raw deflate streams (self-checked by inflating with miniz at start-up)", "zero-length blocks and edge-geometry blocks are not generated; offsets of empty LOD sections are not constrained (sizes must be 0)"],
         pre: Some(pre),
         post: None,
